@@ -5,6 +5,11 @@ Independent specification of C20, written from the property text (not from the c
 
 * `expectedOutcome`: recognises the supported class shapes by their declarations and says what `type_vars` must be
   (by substitution `Ti ↦ Xi`), where it must refuse with AssertionError, and where the property says nothing.
+  "A class that declares `Generic[T1..Tn]` together with `GenericMixin`" is a class that lists `Generic[T1..Tn]` among its
+  bases — whatever extra mixin bases stand before or after it: plain non-generic classes, and parametrised classes that have
+  nothing to do with `GenericMixin` (`class Box(Labelled[str], Generic[T], GenericMixin)` with `class Labelled(Generic[L])`);
+  the type arguments of such a mixin are never what `type_vars` reports.  "Subclasses that bind all parameters of their
+  generic base" have exactly one subscripted base (with two of them "their generic base" is not defined: not claimed).
 * `expectedDecorated`: for every member of the enum, the methods (by defining class and name) that are visible on the
   instance and were decorated through `create_decorator(member)`, with the argument of the outermost such application.
 -/
@@ -54,14 +59,31 @@ def nonGeneric (t : Table) : Nat → Nat → Bool
       | .plain p => nonGeneric t d p
       | _ => false
 
+/-- class id of `GenericMixin` in a class table (0 = `typing.Generic`, 1 = `GenericMixin`; user classes follow the library's) -/
+def mixinId : Nat := 1
+
+/-- the class knows nothing about `GenericMixin`: neither the class nor any of its ancestors lists it — an ordinary generic
+    class (`class Labelled(Generic[L])`), a subscriptable class of another library (`Sequence`, `list`), a plain class -/
+def foreign (t : Table) : Nat → Nat → Bool
+  | 0, _ => false
+  | d + 1, c => c != mixinId && (basesOf t c).all fun b =>
+      match b with
+      | .generic _ => true
+      | .param p _ => foreign t d p
+      | .plain p => foreign t d p
+
 def kindOf (t : Table) : Nat → Nat → Kind
   | 0, _ => .unsupported
   | d + 1, c =>
     let bs := basesOf t c
     let mixinsOk := (bs.filterMap plainOf).all (nonGeneric t d)
     match bs.filterMap genericOf, bs.filterMap paramOf with
-    | [tvs], [] =>                       -- class C(…, Generic[T1..Tn], …mixins…)
-      if mixinsOk && decide tvs.Nodup then .direct tvs else .unsupported
+    | [tvs], ps =>                       -- class C(…mixins…, Generic[T1..Tn], …mixins…): "declares Generic[T1..Tn]"
+      -- the extra mixin bases may be plain non-generic classes and *parametrised* classes that know nothing about GenericMixin
+      -- (`Labelled[str]`, `Sequence[T1]`), any number, before or after `Generic[…]`.  A parametrised base that is itself a
+      -- GenericMixin class (`class C(A[int], Generic[T])`) makes both sentences of the property apply with different answers:
+      -- nothing is claimed there.
+      if mixinsOk && decide tvs.Nodup && ps.all (fun p => foreign t d p.1) then .direct tvs else .unsupported
     | [], [(b, args)] =>                 -- class C(…mixins…, B[X1..Xn], …mixins…)
       (match kindOf t d b with
        | .direct tvs =>
